@@ -33,8 +33,15 @@ func c08wrap(c *Ctx) {
 		}
 		reach[f] = true
 		ast.Inspect(c.P.Decl(f).Body, func(n ast.Node) bool {
-			if call, ok := n.(*ast.CallExpr); ok {
-				visit(callee(p.TypesInfo, call))
+			switch x := n.(type) {
+			case *ast.CallExpr:
+				visit(callee(p.TypesInfo, x))
+			case *ast.Ident:
+				// a function or method mentioned as a value (a method value handed out as the
+				// transformer, a helper stored in a table)
+				if g, ok := p.TypesInfo.Uses[x].(*types.Func); ok {
+					visit(g)
+				}
 			}
 			return true
 		})
